@@ -76,7 +76,10 @@ let check_cache_line (line:string) : unit =
        let d = n_of_int (int_of_string default) in
        (match ct_new (n_of_int sz) d with
         | Panic ->
-          if String.trim f1 <> "PANIC" then mismatch "cache_new_model" (Printf.sprintf "size %d: impl constructs, model panics" sz);
+          if String.trim f1 <> "PANIC" then begin
+            if not ispow2 then mismatch "oracle_cache_new" (Printf.sprintf "size %d is not a power of two but construction succeeded" sz)
+            else mismatch "cache_new_model" (Printf.sprintf "size %d: impl constructs, model panics" sz)
+          end;
           if ispow2 then mismatch "oracle_cache_new" (Printf.sprintf "size %d is a power of two but construction panics" sz)
         | Err -> mismatch "cache_new_model" "Err"
         | Ok t0 ->
@@ -193,6 +196,41 @@ let check_zob_line (line:string) : unit =
      | _ -> mismatch "zob_line" "bad H header")
   | [f0] -> ignore f0
   | _ -> mismatch "zob_line" "bad H line"
+
+(* width / balance of the census hashes: calibrated so that a 64-bit hash with independent
+   uniformly distributed bits passes except with negligible probability, while a hash whose
+   keys carry fewer than 64 random bits (e.g. 32-bit piece keys) fails at once.  N = number of
+   distinct hash values in this shard's census.
+   - each 32-bit half: N - distinct(half) <= lambda + 10 sqrt(lambda) + 10, lambda = N^2 / 2^33;
+   - each 16-bit quarter: distinct within 5 % (+50) of M (1 - (1 - 1/M)^N), M = 65536;
+   - each bit: set in N/2 +- 8 sqrt(N)/2 of the hashes. *)
+let zob_finish () : unit =
+  let n = Hashtbl.length census in
+  if n >= 2000 then begin
+    let nf = float_of_int n in
+    let hs = Hashtbl.fold (fun h _ acc -> Int64.of_string ("0u" ^ h) :: acc) census [] in
+    let distinct_of f = let t = Hashtbl.create (2 * n) in List.iter (fun h -> Hashtbl.replace t (f h) ()) hs; Hashtbl.length t in
+    let lambda = nf *. nf /. 8589934592.0 in
+    List.iter (fun (name, sh) ->
+        let d = distinct_of (fun h -> Int64.logand (Int64.shift_right_logical h sh) 0xFFFFFFFFL) in
+        bump ~by:d ("census_distinct_" ^ name);
+        if float_of_int (n - d) > lambda +. 10.0 *. sqrt lambda +. 10.0 then
+          mismatch "oracle_hash_width" (Printf.sprintf "the %s 32 bits of %d distinct position hashes take only %d distinct values (a 64-bit hash would lose about %.1f to chance)" name n d lambda))
+      [("upper", 32); ("lower", 0)];
+    let m = 65536.0 in
+    let expect = m *. (1.0 -. exp (nf *. log (1.0 -. 1.0 /. m))) in
+    List.iter (fun q ->
+        let d = distinct_of (fun h -> Int64.logand (Int64.shift_right_logical h (16 * q)) 0xFFFFL) in
+        if abs_float (float_of_int d -. expect) > 0.05 *. expect +. 50.0 then
+          mismatch "oracle_hash_width" (Printf.sprintf "bits %d..%d of %d distinct position hashes take %d distinct values, expected about %.0f" (16 * q) (16 * q + 15) n d expect))
+      [0; 1; 2; 3];
+    for k = 0 to 63 do
+      let ones = List.fold_left (fun a h -> if Int64.logand (Int64.shift_right_logical h k) 1L = 1L then a + 1 else a) 0 hs in
+      if abs_float (float_of_int ones -. nf /. 2.0) > 4.0 *. sqrt nf then
+        mismatch "oracle_hash_width" (Printf.sprintf "bit %d is set in %d of %d distinct position hashes (expected %d +- %.0f)" k ones n (n / 2) (4.0 *. sqrt nf))
+    done;
+    bump "census_width_checks"
+  end
 
 (* "fns" stream (C16): the tabulated graphs of the public functions against the closed forms
    of Spec/Geometry.v and the model's square arithmetic: gives a concrete (square / pair)
